@@ -33,8 +33,20 @@ WbOf(e) == [cells |-> [k \in {<<e.cells[i].sheet, e.cells[i].col, e.cells[i].row
             names |-> [n \in {e.names[i].n : i \in 1..Len(e.names)} |->
                          LET i == CHOOSE j \in 1..Len(e.names) : e.names[j].n = n IN e.names[i].ast]]
 
+\* (the JSON reader nests at most 255 levels: a long operator chain a op b op c ... arrives flat and is folded to the left here)
+RECURSIVE ChainL(_, _, _)
+ChainL(op, xs, n) == IF n = 1 THEN xs[1] ELSE [k |-> "bin", op |-> op, l |-> ChainL(op, xs, n - 1), r |-> xs[n]]
+AstOf(e) == IF e.ast.k = "chainl" THEN ChainL(e.ast.op, e.ast.xs, Len(e.ast.xs)) ELSE e.ast
+
+\* an operator applied to two scalar values returns a value or an error value even where the specification leaves open
+\* which (C07: "never raise a Python exception") - e.g. a concatenation longer than any cell of Excel holds
+ScalarT == {"num", "txt", "bool", "blank", "date", "err"}
+TotalOp(e) == LET a == Erase(AstOf(e)) IN
+              /\ a.k = "bin"
+              /\ Eval(a.l, e.sheet, WbOf(e)).t \in ScalarT
+              /\ Eval(a.r, e.sheet, WbOf(e)).t \in ScalarT
 Verdict(e, x) ==
-    IF x.t \in {"open", "ref"} THEN "open"
+    IF x.t \in {"open", "ref"} THEN (IF e.res.t = "exc" /\ TotalOp(e) THEN "python-exception" ELSE "open")
     ELSE IF Agrees(e.res, x) THEN (IF "stored" \in DOMAIN e /\ ~Agrees(e.stored, x) THEN "stored-value-differs" ELSE "ok")
     ELSE IF e.res.t = "exc" THEN "python-exception"
     ELSE IF x.t \in {"err", "anyerr"} THEN "error-expected"
@@ -45,7 +57,7 @@ Init == l = 0 /\ verdict = "start" /\ exp = [t |-> "none"]
 Step == /\ l < Len(Trace)
         /\ l' = l + 1
         /\ LET e == Trace[l + 1]
-               x == Eval(Erase(e.ast), e.sheet, WbOf(e))
+               x == Eval(Erase(AstOf(e)), e.sheet, WbOf(e))
            IN exp' = x /\ verdict' = Verdict(e, x)
 Spec == Init /\ [][Step]_vars
 AllConsumed == TLCGet("stats").diameter - 1 = Len(Trace)
